@@ -123,6 +123,9 @@ func genC13(kind string) func(r *core.Rng) any {
 				if kind == "text" {
 					pick = 5
 				}
+				if kind == "empty-images" && r.Bool() {
+					pick = 8
+				}
 				switch {
 				case pick < 4:
 					it.Kind = "path"
@@ -160,6 +163,17 @@ func genC13(kind string) func(r *core.Rng) any {
 				case pick < 9:
 					it.Kind = "image"
 					it.ImgW, it.ImgH = r.IntRange(1, 9), r.IntRange(1, 9)
+					if kind == "empty-images" && r.Chance(0.6) {
+						// an image without pixels (an empty SubImage, say): zero width, zero height or both
+						switch r.Intn(3) {
+						case 0:
+							it.ImgW = 0
+						case 1:
+							it.ImgH = 0
+						default:
+							it.ImgW, it.ImgH = 0, 0
+						}
+					}
 					it.ImgK = r.Intn(4)
 					it.Res = core.PickF(r, []float64{1, 2, 0.5, r.Range(0.1, 10)})
 				default:
@@ -491,6 +505,7 @@ func init() {
 			{Name: "documents", Quick: 1500, Thorough: 40000, Gen: genC13("documents")},
 			{Name: "text", Quick: 500, Thorough: 15000, Gen: genC13("text")},
 			{Name: "meta", Quick: 1000, Thorough: 30000, Gen: genC13("meta")},
+			{Name: "empty-images", Quick: 300, Thorough: 5000, Gen: genC13("empty-images"), Note: "documents with images of zero width or height among the other content"},
 		},
 		NewCase:  func() any { return &c13Case{} },
 		Check:    c13Check,
